@@ -310,7 +310,27 @@ func (option *Option) canArgument() bool {
 		return true
 	}
 
-	return !option.isBool()
+	if option.isBool() {
+		// A slice of (pointers to) values that unmarshal themselves takes
+		// arguments as well, whatever their underlying kind
+		return elemIsUnmarshaler(option.value.Type())
+	}
+
+	return true
+}
+
+func elemIsUnmarshaler(tp reflect.Type) bool {
+	unmarshaler := reflect.TypeOf((*Unmarshaler)(nil)).Elem()
+
+	for tp.Kind() == reflect.Slice || tp.Kind() == reflect.Ptr {
+		tp = tp.Elem()
+
+		if tp.Implements(unmarshaler) || reflect.PtrTo(tp).Implements(unmarshaler) {
+			return true
+		}
+	}
+
+	return false
 }
 
 func (option *Option) emptyValue() reflect.Value {
